@@ -190,6 +190,19 @@ def shortcut (c : Cache D) (l : Layer D) : Bool :=
   | some f => f.length != 0 && f.length == l.size
   | none => false
 
+/-- `c.Chunked`: the file-less pre-validated Chunker when a file of that size exists … -/
+def prevalidated (c : Cache D) (l : Layer D) : Bool :=
+  match c.files l.digest with
+  | some f => f.length == l.size
+  | none => false
+
+/-- … else `os.OpenFile(name, O_CREATE|O_WRONLY)`: the final file, created if absent, never
+    truncated -/
+def ensureFile (c : Cache D) (d : D) : Cache D :=
+  match c.files d with
+  | some _ => c
+  | none => c.setFile d []
+
 def orElse (a : Option ErrClass) (b : ErrClass) : Option ErrClass :=
   match a with
   | some e => some e
@@ -202,15 +215,8 @@ def advance (limit : Option Nat) : Run D → List (Op D) → Run D
     if shortcut st.cache l then
       advance limit { st with completed := st.completed + l.size, skipLayer := true } rest
     else
-      -- c.Chunked: pre-validated when a file of that size exists, else O_CREATE (no truncation)
-      let pre := match st.cache.files l.digest with
-        | some f => f.length == l.size
-        | none => false
-      let cache := match st.cache.files l.digest with
-        | some _ => st.cache
-        | none => st.cache.setFile l.digest []
-      advance limit { st with cache := cache, skipLayer := false, skipChunks := big && st.cancelled,
-                              prevalid := pre } rest
+      advance limit { st with cache := ensureFile st.cache l.digest, skipLayer := false,
+                              skipChunks := big && st.cancelled, prevalid := prevalidated st.cache l } rest
   | st, .chunk e l cs :: rest =>
     if st.skipLayer || st.skipChunks then advance limit st rest
     else if st.cache.markers ⟨l.digest, cs.digest, cs.start, cs.len⟩ then
